@@ -103,11 +103,26 @@ void hv_case(uint64_t index)
     for (unsigned i = 0; i < NC; i++) { const char *r = C[i].rel; if (!strncmp(r, "fsroot/", 7)) { r += 7; C[i].hot = !strncmp(r, "sys/devices/system/", 19) ? 2 : (!strncmp(r, "proc/", 5) || !strncmp(r, "sys/class/", 10) || !strncmp(r, "sys/bus/", 8)) ? 1 : 0; } else C[i].hot = 1; } }
   hv_max("max_snapshot_files", nfiles);
   /* removal set */
-  unsigned nrm = 0, mode = (unsigned)(round % 4);
+  unsigned nrm = 0, mode = (unsigned)(round % 5);
+  /* mode 4: enumerated removal of one non-instance entry directly below one of the first CPU (or NUMA node) instance directories:
+   * cpu<K>/topology first (K = 0..7 over the rounds), then cpu<K>/cache, node<K>/cpumap, ... These entries decide which CPU is the first
+   * of its core/package/node, i.e. where objects are placed and how siblings are ordered. */
+  char directed[300] = "";
+  if (mode == 4 && s0->kind != 'x' && NC) {
+    uint64_t r4 = round / 5; unsigned K = (unsigned)(r4 % 8); uint64_t e = r4 / 8;
+    static const char *const ent[] = { "cpu/cpu%u/topology", "cpu/cpu%u/cache", "node/node%u/cpumap", "cpu/cpu%u/online", "node/node%u/meminfo", "cpu/cpu%u/topology/core_cpus", "cpu/cpu%u/topology/package_cpus", "cpu/cpu%u/topology/thread_siblings", "cpu/cpu%u/topology/core_siblings", "node/node%u/distance", "cpu/cpu%u/cpu_capacity", "cpu/cpu%u/cpufreq" };
+    char rel[200]; snprintf(rel, sizeof rel, ent[e % (sizeof ent / sizeof *ent)], K);
+    snprintf(directed, sizeof directed, "%ssys/devices/system/%s", s0->kind == 'l' ? "" : "fsroot/", rel);
+  }
   if (mode == 1) nrm = 1 + (unsigned)hv_below(&R, 2); else if (mode == 2) nrm = 1 + (unsigned)hv_below(&R, 8); else if (mode == 3) nrm = 1 + (unsigned)hv_below(&R, 40);
   if (!NC) nrm = 0;
   uint64_t rmhash = 0; unsigned removed = 0, removed_hot = 0;
   hv_desc("snapshot %c:%s variant %u testenv %u config %s, %lu files, %u candidates\n", s0->kind, s0->name, variant, testenv, cs.s, nfiles, NC);
+  if (directed[0]) {
+    char p[8192]; snprintf(p, sizeof p, "%s/%s", root, directed); struct stat st;
+    if (lstat(p, &st) == 0) { rm_rf(p); removed++; removed_hot++; rmhash = hv_hash_str(directed, 1); hv_desc("  removed (enumerated) %s\n", directed); hv_stat("removals.enumerated_first_cpu_entries", 1); }
+    else hv_stat("removals.enumerated_entry_absent", 1);
+  }
   for (unsigned k = 0; k < nrm; k++) {
     unsigned pick = 0; int want_hot = mode == 1 ? 2 : hv_chance(&R, 2, 3) ? 1 : 0;
     for (int tries = 0; tries < 200; tries++) { pick = (unsigned)hv_below(&R, NC); if (C[pick].hot >= want_hot) break; }
